@@ -1,3 +1,5 @@
+use std::collections::{HashMap, HashSet};
+
 use super::ValidationRule;
 use crate::ast::{visit_document, OperationVisitor, OperationVisitorContext};
 use crate::static_graphql::query::*;
@@ -10,18 +12,66 @@ use crate::validation::utils::{ValidationError, ValidationErrorContext};
 ///
 /// See https://spec.graphql.org/draft/#sec-Fragments-Must-Be-Used
 pub struct NoUnusedFragments<'a> {
-    fragments_in_use: Vec<&'a str>,
+    /// Name of the fragment definition being visited, `None` while inside an operation.
+    current_fragment: Option<&'a str>,
+    /// Fragments spread directly within operations.
+    spreads_in_operations: Vec<&'a str>,
+    /// Fragments spread directly within each fragment definition.
+    spreads_in_fragments: HashMap<&'a str, Vec<&'a str>>,
+}
+
+impl<'a> NoUnusedFragments<'a> {
+    /// Marks `fragment_name`, and every fragment spread (transitively) within it, as used.
+    fn mark_used(&self, fragment_name: &'a str, fragments_in_use: &mut HashSet<&'a str>) {
+        if fragments_in_use.contains(fragment_name) {
+            return;
+        }
+
+        fragments_in_use.insert(fragment_name);
+
+        if let Some(spreads) = self.spreads_in_fragments.get(fragment_name) {
+            for spread in spreads {
+                self.mark_used(spread, fragments_in_use);
+            }
+        }
+    }
 }
 
 impl<'a> OperationVisitor<'a, ValidationErrorContext> for NoUnusedFragments<'a> {
+    fn enter_fragment_definition(
+        &mut self,
+        _: &mut OperationVisitorContext,
+        _: &mut ValidationErrorContext,
+        fragment_definition: &'a FragmentDefinition,
+    ) {
+        self.current_fragment = Some(fragment_definition.name.as_str());
+    }
+
+    fn leave_fragment_definition(
+        &mut self,
+        _: &mut OperationVisitorContext,
+        _: &mut ValidationErrorContext,
+        _: &FragmentDefinition,
+    ) {
+        self.current_fragment = None;
+    }
+
     fn enter_fragment_spread(
         &mut self,
         _: &mut OperationVisitorContext,
         _: &mut ValidationErrorContext,
         fragment_spread: &'a FragmentSpread,
     ) {
-        self.fragments_in_use
-            .push(fragment_spread.fragment_name.as_str());
+        let spread_name = fragment_spread.fragment_name.as_str();
+
+        match self.current_fragment {
+            Some(fragment_name) => self
+                .spreads_in_fragments
+                .entry(fragment_name)
+                .or_default()
+                .push(spread_name),
+            None => self.spreads_in_operations.push(spread_name),
+        }
     }
 
     fn leave_document(
@@ -30,11 +80,18 @@ impl<'a> OperationVisitor<'a, ValidationErrorContext> for NoUnusedFragments<'a> 
         user_context: &mut ValidationErrorContext,
         _document: &Document,
     ) {
+        // A fragment is used only when it is reachable from an operation.
+        let mut fragments_in_use: HashSet<&'a str> = HashSet::new();
+
+        for spread in &self.spreads_in_operations {
+            self.mark_used(spread, &mut fragments_in_use);
+        }
+
         visitor_context
             .known_fragments
             .iter()
             .filter_map(|(fragment_name, _fragment)| {
-                if !self.fragments_in_use.contains(fragment_name) {
+                if !fragments_in_use.contains(fragment_name) {
                     Some(fragment_name)
                 } else {
                     None
@@ -59,7 +116,9 @@ impl<'a> Default for NoUnusedFragments<'a> {
 impl<'a> NoUnusedFragments<'a> {
     pub fn new() -> Self {
         NoUnusedFragments {
-            fragments_in_use: Vec::new(),
+            current_fragment: None,
+            spreads_in_operations: Vec::new(),
+            spreads_in_fragments: HashMap::new(),
         }
     }
 }
